@@ -16,6 +16,7 @@ the steps of the Lean model `FfcxModel/Jit/Cache.lean` (same op / result names):
     unredir  redirect_stdout.__exit__ on the normal path
     markcreate  jit.open(<module>.c.cached, "x")           ok | exists | raise
     markwrite   fd.write(s) and fd.close() of the file object returned by that open    ok | raise
+    markremove  jit.os.remove(<module>.c.cached) in the handler around write/close    ok
     restore  jit.root_logger.handlers = old_handlers (second assignment)
     release  jit.os.replace(.c -> .c.failed)               ok | enoent
 
@@ -321,6 +322,7 @@ class Scenario:
         self.orig_stdout = sys.stdout
         self.counters = {"lock_ok": 0, "release_ok": 0, "compile": 0}
         self.so_gen = 0  # how often the (replayed) linker has re-created the `.so`
+        self.finish_log = []  # (pid, "done"|"raised", exception type name, abstract directory) in order of completion
         self.started = False
 
     # -- worker side ------------------------------------------------------------------------
@@ -346,6 +348,8 @@ class Scenario:
                     st.fs_at_finish = self.ref.abstract_fs(self.cache_dir)
                 except Exception as e:  # noqa: BLE001
                     st.fs_at_finish = ({"error": repr(e)}, [])
+                self.finish_log.append((st.pid, st.outcome[0], type(st.outcome[1]).__name__ if st.outcome[0] == "raised" else None,
+                                        st.fs_at_finish[0]))
             with self.cv:
                 st.finished = True
                 st.at_gate = False
@@ -652,6 +656,12 @@ class Patches:
             return sc.gate("release", lambda: os.replace(a, b), cls)
         return os.replace(a, b)
 
+    def _remove(self, p):
+        sc = self._sc()
+        if sc is not None and str(p).endswith(".c.cached"):
+            return sc.gate("markremove", lambda: os.remove(p), lambda v, e: "ok" if e is None else "error:" + type(e).__name__)
+        return os.remove(p)
+
     def _sleep(self, secs):
         sc = self._sc()
         if sc is not None:
@@ -720,6 +730,11 @@ class Patches:
 
             def replace(self, a, b):
                 return patches._replace(a, b)
+
+            def remove(self, p):
+                return patches._remove(p)
+
+            unlink = remove
 
         class TimeShim:
             def __getattr__(self, n):
@@ -864,9 +879,11 @@ class Patches:
 
 def patches_intact():
     """True iff none of jit.py's globals is still patched (used by the checks' self-test)."""
+    want = {"os": os, "time": _time, "importlib": importlib, "cffi": cffi, "root_logger": logging.getLogger(),
+            "redirect_stdout": contextlib.redirect_stdout}
+    # (a global jit.py does not have cannot be patched: see CannotGate)
     return (
-        jit.os is os and jit.time is _time and jit.importlib is importlib and jit.cffi is cffi
-        and jit.root_logger is logging.getLogger() and jit.redirect_stdout is contextlib.redirect_stdout
+        all(getattr(jit, n) is v for n, v in want.items() if hasattr(jit, n))
         and "open" not in jit.__dict__ and ffcx.compiler.compile_ufl_objects.__module__ == "ffcx.compiler"
     )
 
@@ -895,6 +912,9 @@ def model_status(proc):
     if pc == "dead":
         return ("dead", None, "none", polls)
     if isinstance(pc, list) and pc[0] == "done":
+        if pc[2] != "complete":
+            # the harness never dlopens a file that is not byte-complete: the import is answered with ImportError
+            return ("raised", "ImportError", "none", polls)
         return ("done", (pc[1] == "true", pc[2], int(tok)), "none", polls)
     if isinstance(pc, list) and pc[0] == "raised":
         if pc[1] == "build":
